@@ -455,3 +455,147 @@ Proof.
   - subst r. rewrite Hk in Hst. discriminate.
   - pose proof (H5 _ _ Hst Hin) as Hc. rewrite Hk in Hc. discriminate.
 Qed.
+
+(** ---- the sets used above, in words ---- *)
+(** [dyn_roots st W]: r is the nearest ItemSpace around (or is) a live ItemSpace
+    or dynamic space e that was built as a copy of W *)
+Definition holds_copy (st : state) (r W : uid) : Prop :=
+  exists e, alive st e = true /\ (is_kind st KItem e = true \/ is_kind st KDSpace e = true)
+            /\ lookupN e (st_src st) = Some W
+            /\ find (is_kind st KItem) (e :: chain_of st e) = Some r.
+
+Theorem dyn_roots_spec : forall st W r, In r (dyn_roots st W) <-> holds_copy st r W.
+Proof.
+  intros st W r. unfold dyn_roots, holds_copy. rewrite in_flat_map. split.
+  - intros [e [He Hr]]. exists e. split; [unfold alive; apply memN_In; exact He|].
+    destruct (is_kind st KItem e || is_kind st KDSpace e) eqn:Ek; cbn [andb] in Hr; [|destruct Hr].
+    destruct (lookupN e (st_src st)) as [s0|] eqn:Es; [|destruct Hr].
+    destruct (N.eqb s0 W) eqn:E0; [|destruct Hr]. apply N.eqb_eq in E0; subst s0.
+    split; [apply orb_true_iff in Ek; exact Ek|]. split; [reflexivity|].
+    unfold root_of in Hr. destruct (find (is_kind st KItem) (e :: chain_of st e)) as [r'|]; [|destruct Hr].
+    destruct Hr as [Hr|[]]. subst r'. reflexivity.
+  - intros [e [He [Hk [Hs Hf]]]]. exists e. split; [unfold alive in He; apply memN_In; exact He|].
+    apply orb_true_iff in Hk. rewrite Hk, Hs, N.eqb_refl. cbn [andb]. unfold root_of. rewrite Hf. left; reflexivity.
+Qed.
+
+(** a definer in the state before the deletion, reached through ancestors that
+    are not deleted, is a definer afterwards (the converse needs that a
+    container never holds two cells of one name, which is not among the
+    invariants proved here) *)
+Inductive anc_out (st : state) (K : list uid) : uid -> uid -> Prop :=
+| anc_out_base : forall T b, In b (c_bases (get_cont st T)) -> memN b K = false -> anc_out st K T b
+| anc_out_step : forall T b A, In b (c_bases (get_cont st T)) -> memN b K = false ->
+                               anc_out st K b A -> anc_out st K T A.
+
+Lemma anc_out_purge : forall K st T A,
+  memN T K = false -> anc_out st K T A -> anc (purge K st) T A /\ memN A K = false.
+Proof.
+  intros K st T A HT H. induction H as [T b Hb HbK|T b A Hb HbK H IH].
+  - split; [|exact HbK]. apply anc_base. rewrite (get_cont_purge _ _ _ HT). cbn [purge_cont c_bases].
+    apply filter_In. split; [exact Hb|rewrite HbK; reflexivity].
+  - destruct (IH HbK) as [IH1 IH2]. split; [|exact IH2]. apply (anc_step _ T b A); [|exact IH1].
+    rewrite (get_cont_purge _ _ _ HT). cbn [purge_cont c_bases].
+    apply filter_In. split; [exact Hb|rewrite HbK; reflexivity].
+Qed.
+
+Theorem definer_left : forall K st T n c A,
+  memN T K = false -> anc_out st K T A -> lookupS n (c_cells (get_cont st A)) = Some c ->
+  alive st c = true -> is_defined st c = true -> memN c K = false ->
+  definer (purge K st) T n c.
+Proof.
+  intros K st T n c A HT Ha Hl Hal Hd Hc. destruct (anc_out_purge K st T A HT Ha) as [Ha' HA].
+  exists A. split; [exact Ha'|]. split; [|split].
+  - rewrite (get_cont_purge _ _ _ HA). cbn [purge_cont c_cells].
+    apply lookupS_filter; [exact Hl|]. cbn [snd]. rewrite Hc. reflexivity.
+  - rewrite alive_purge, Hal, Hc. reflexivity.
+  - exact Hd.
+Qed.
+
+(** ---- examples: the statements are not vacuous ---- *)
+Open Scope string_scope.
+
+(** A.f and B.f are defined; C inherits from A and B and has the derived copy
+    C.f.  uids = handles: 1 = A, 2 = A.f, 3 = B, 4 = B.f, 5 = C, 6 = C.f *)
+Definition clos_ops : list op :=
+  [ NewSpace 0 "A" [] false; NewCells 1 "f"; NewSpace 0 "B" [] false; NewCells 3 "f";
+    NewSpace 0 "C" [1; 3] false; Take 5 "f" ].
+
+Example clos_before :
+  let st := run [] clos_ops in
+  map (alive st) (st_handles st) = repeat true 7 /\ st_handles st = [0; 1; 2; 3; 4; 5; 6]%N
+  /\ is_derived st 6%N = true /\ parent_of st 6%N = Some 5%N /\ name_of st 6%N = "f".
+Proof. vm_compute. repeat split; reflexivity. Qed.
+
+(** [del A.f]: the derived C.f survives, because B.f is left as a definer ... *)
+Example clos_del_cells_survives :
+  let st := run [] clos_ops in
+  let st' := run [] (clos_ops ++ [DelAttr 1 "f"]) in
+  step_del_cells st 1%N 2%N = (st', ODone)
+  /\ definer (without st 2%N) 5%N "f" 4%N
+  /\ alive st' 6%N = true /\ alive st' 2%N = false.
+Proof.
+  split; [vm_compute; reflexivity|]. split; [|split; vm_compute; reflexivity].
+  exists 3%N. split; [apply anc_base; vm_compute; right; left; reflexivity|].
+  split; [vm_compute; reflexivity|]. split; vm_compute; reflexivity.
+Qed.
+
+(** ... as [del_cells_derived_iff] says *)
+Example clos_del_cells_survives_by_theorem :
+  alive (run [] (clos_ops ++ [DelAttr 1 "f"])) 6%N = true.
+Proof.
+  destruct clos_del_cells_survives as [E [Hdef _]]. destruct clos_before as [_ [_ [Hd [Hp Hn]]]].
+  apply (proj2 (del_cells_derived_iff _ 1%N 2%N _ 6%N 5%N (inv2_run [] clos_ops) E
+                  ltac:(vm_compute; reflexivity) Hd Hp)).
+  exists 4%N. rewrite Hn. exact Hdef.
+Qed.
+
+(** ... then [del B.f]: no definer is left and C.f dies *)
+Example clos_del_cells_dies :
+  let st := run [] (clos_ops ++ [DelAttr 1 "f"]) in
+  let st' := run [] (clos_ops ++ [DelAttr 1 "f"; DelAttr 3 "f"]) in
+  step_del_cells st 3%N 4%N = (st', ODone)
+  /\ alive st 6%N = true /\ alive st' 6%N = false
+  /\ forall c, ~ definer (without st 4%N) 5%N "f" c.
+Proof.
+  cbv zeta.
+  assert (step_del_cells (run [] (clos_ops ++ [DelAttr 1 "f"])) 3%N 4%N
+          = (run [] (clos_ops ++ [DelAttr 1 "f"; DelAttr 3 "f"]), ODone)) as E by (vm_compute; reflexivity).
+  assert (alive (run [] (clos_ops ++ [DelAttr 1 "f"; DelAttr 3 "f"])) 6%N = false) as Hdead by (vm_compute; reflexivity).
+  split; [exact E|]. split; [vm_compute; reflexivity|]. split; [exact Hdead|].
+  intros c Hc.
+  pose proof (proj2 (del_cells_derived_iff _ 3%N 4%N _ 6%N 5%N (inv2_run [] (clos_ops ++ [DelAttr 1 "f"])) E
+                       ltac:(vm_compute; reflexivity) ltac:(vm_compute; reflexivity) ltac:(vm_compute; reflexivity))) as H.
+  assert (name_of (run [] (clos_ops ++ [DelAttr 1 "f"])) 6%N = "f") as Hn by (vm_compute; reflexivity).
+  assert (alive (run [] (clos_ops ++ [DelAttr 1 "f"; DelAttr 3 "f"])) 6%N = true) as Ht.
+  { apply H. exists c. exact (eq_ind_r (fun n => definer _ 5%N n c) Hc Hn). }
+  discriminate (eq_trans (eq_sym Hdead) Ht).
+Qed.
+
+(** [del M.A] (a base space): C.f survives; then [del M.B]: C.f dies.
+    [remove_bases C [A]]: survives; [remove_bases C [A; B]]: dies *)
+Example clos_del_space :
+  let st := run [] clos_ops in
+  step_del_space st 0%N 1%N = (run [] (clos_ops ++ [DelAttr 0 "A"]), ODone)
+  /\ definer (without st 1%N) 5%N "f" 4%N
+  /\ map (alive (run [] (clos_ops ++ [DelAttr 0 "A"]))) (st_handles st) = [true; false; false; true; true; true; true]
+  /\ map (alive (run [] (clos_ops ++ [DelAttr 0 "A"; DelAttr 0 "B"]))) (st_handles st)
+     = [true; false; false; false; false; true; false].
+Proof.
+  split; [vm_compute; reflexivity|]. split; [|split; vm_compute; reflexivity].
+  exists 3%N. split; [apply anc_base; vm_compute; left; reflexivity|].
+  split; [vm_compute; reflexivity|]. split; vm_compute; reflexivity.
+Qed.
+
+Example clos_remove_bases :
+  let st := run [] clos_ops in
+  step_remove_bases st 5%N [1%N] = (run [] (clos_ops ++ [RemoveBases 5 [1]]), ODone)
+  /\ definer (cut_bases st 5%N [1%N]) 5%N "f" 4%N
+  /\ map (alive (run [] (clos_ops ++ [RemoveBases 5 [1]]))) (st_handles st) = repeat true 7
+  /\ step_remove_bases st 5%N [1%N; 3%N] = (run [] (clos_ops ++ [RemoveBases 5 [1; 3]]), ODone)
+  /\ map (alive (run [] (clos_ops ++ [RemoveBases 5 [1; 3]]))) (st_handles st)
+     = [true; true; true; true; true; true; false].
+Proof.
+  split; [vm_compute; reflexivity|]. split; [|split; [|split]; vm_compute; reflexivity].
+  exists 3%N. split; [apply anc_base; vm_compute; left; reflexivity|].
+  split; [vm_compute; reflexivity|]. split; vm_compute; reflexivity.
+Qed.
